@@ -280,7 +280,7 @@ def run_one(seed, preset=None, tier="quick", want_case=False):
         if reqs[cancel].cancelled:
             faults["client_cancelled_in_flight"] = 1
     r0["faults"] = faults
-    r0["sched_kinds"] = {sch[0]: 1}
+    r0["sched_kinds"] = {sch[0] + ("+eager" if sch[2].endswith("+eager") else ""): 1}
     r0["metrics"] = {"requests": len(reqs), "max_requests_suspended_together": concurrent, "cache_" + cache: 1}
     if dfs_info:
         r0["metrics"]["dfs_executions"] = dfs_info[0]
